@@ -360,14 +360,13 @@ def classify_monitor(case, mon, idxs, j, verdict):
         if mon[q].split()[1] == str(oid):
             prev = q
             break
-    if kind == "goslice" and verdict.strip() == "bad step" and prev is not None and " ext=f" in mon[prev]:
-        a, b = parse_props(mon[prev]), parse_props(ml)
-        if set(a) < set(b) and all(k.startswith("i") for k in set(b) - set(a)):
-            return SIG_GOSLICE_GROWS
     if kind == "goslice" and verdict.strip() == "bad step" and prev is not None:
         a, b = parse_props(mon[prev]), parse_props(ml)
-        if set(b) < set(a) and all(k.startswith("i") for k in set(a) - set(b)):
-            return SIG_GOSLICE_SHRINKS
+        removed, added = set(a) - set(b), set(b) - set(a)
+        if removed and all(k.startswith("i") for k in removed):
+            return SIG_GOSLICE_SHRINKS          # elements reported non-configurable vanished through a smaller length
+        if " ext=f" in mon[prev] and added and any(k.startswith("i") for k in added):
+            return SIG_GOSLICE_GROWS            # a non-extensible slice gained index keys
     return "monitor:%s:%s" % (kind, verdict.replace(" ", "_"))
 
 
@@ -462,7 +461,7 @@ def main(ctx):
     if not ok:
         # a broken theorem / tie must not take the model driver away from the search
         sh(["lake", "build", "model_c04"], cwd=LEAN, timeout=3000)
-    names = ctx.audit("GojaModel.C04.Props", expect_min=21)
+    names = ctx.audit("GojaModel.C04.Props", expect_min=24)
     if have_tie and ok:
         ctx.audit("GojaModel.C04.Tie", expect_min=1)
     if ctx.tier == "thorough" and ok:
